@@ -7,6 +7,8 @@ import JunoModel.C03.ProofsProgress
 import JunoModel.C03.ProofsLegacySys
 import JunoModel.C03.ProofsApi
 import JunoModel.C03.ProofsLegacySysX
+import JunoModel.C03.ProofsKeys
+import JunoModel.C03.ProofsRpc
 /-!
 C03 — property theorems (statements only; helper lemmas are in `Proofs*.lean`; statements about
 proposed patches that are not in the tree are in `ProofsPatch.lean` and are NOT obligations).
@@ -33,6 +35,14 @@ the list `nd.blocks`. `bn.resolve be fl v`: which view a request gets through th
 `fl` (`none` = unseeded, the only case `Node.resolve` covers; `some f` = seeded at `f`, what node/node.go
 builds). `lastBlockWhere w ch n`: most recent block `≤ n` of the chain whose diff satisfies `w`; `v2Of`: the
 blake2s compiled class hash of a class's declaration; `histKey` / `bytesLt`: history keys and their byte order.
+
+Round 5. `Key` = a byte string; `upperBoundLoop` = db/dbutils `UpperBound` as written, `upperBound` the same
+function by recursion from the first byte; `inPrefixRange p k`: `p ≤ k < UpperBound p` as the stores decide it
+(`bytes.Compare`; no bound when `UpperBound` is nil); `KV` a key/value store as bytes, `KV.deleteRange`,
+`KV.iter` (= `NewIterator(prefix, true)`: the entries in the range, sorted); `encodeHist bk h` / `encodeLeaves bk lv`:
+the history bucket / the leaf nodes of the storage tries under their real keys (bucket byte ++ 32-byte felts ++ …);
+`valueAtBytes`, `lastUpdatedBytes`: the history readers of the new backend on what such an iterator yields.
+`Diff.Felts`: every address and slot of the diff fits 32 bytes.
 
 Variants. `Cfg.current` / `legacyBackend` = the tree (`leafFix` b4efaf4, `histOrderFix` 904a370 and
 `dupDeclFix` 7460746 applied; `sysProbeFix`, `migValFix` proposed only). Theorems named `*_before_<commit>` are regression witnesses for
@@ -791,6 +801,172 @@ theorem history_key_order (pfx : List Nat) (n m : Nat) (hn : n < 2 ^ 64) (hm : m
   rw [bytesLt_append_left]
   exact beBytes_lt 8 n m (by simpa using hn) (by simpa using hm)
 
+/-! ### round 5: keys at the byte level — `UpperBound`, prefix range deletes, prefix-bounded iterators -/
+
+/-- `UpperBound` IS EXACT (db/dbutils/bound.go, the helper behind every prefix-bounded iterator and every
+prefix `DeleteRange`): the loop as written computes `upperBound`, and for EVERY prefix `p` — also one that
+ends in bytes 0xff, where the bound needs the carry into the byte before the run, and one made of 0xff
+only, which has no bound — a byte string lies in `[p, UpperBound p)` iff it starts with `p`. So the bound
+is above every key with the prefix and nothing else is below it (it is the least such bound). -/
+theorem upper_bound_exact (p k : Key) (hk : Bytes k) :
+    upperBoundLoop p = upperBound p ∧ (inPrefixRange p k = true ↔ p <+: k) :=
+  ⟨upperBoundLoop_eq p, inPrefixRange_iff p k hk⟩
+
+/-- A PREFIX RANGE DELETE AND A PREFIX-BOUNDED SCAN TOUCH EXACTLY THE KEYS WITH THE PREFIX, on any store:
+`DeleteRange(p, UpperBound(p))` leaves exactly the entries whose key does not start with `p`, and
+`NewIterator(p, true)` yields exactly the entries whose key starts with `p`. -/
+theorem prefix_delete_and_scan_exact (s : KV) (p : Key) (hs : ∀ e ∈ s, Bytes e.1) :
+    s.deleteRange p (upperBound p) = s.filter (fun e => !hasPrefix p e.1) ∧
+    (∀ x, x ∈ s.iter p ↔ x ∈ s ∧ p <+: x.1) :=
+  ⟨deleteRange_prefix s p hs, iter_mem s p hs⟩
+
+/-- what goes wrong with a bound that is above every key with the prefix but not the least one (the
+incremented byte followed by the old tail, `[1,2,0xff] ↦ [1,3,0xff]`): the range of prefix `[1,2,0xff]`
+then also holds the key `[1,3]` and the key `[1,3,0x07]` of OTHER prefixes — a range delete of one
+contract's nodes takes a neighbour's with it. -/
+theorem non_least_bound_counterexample :
+    inRange [1, 2, 255] (some [1, 3, 255]) [1, 3] = true ∧ inRange [1, 2, 255] (some [1, 3, 255]) [1, 3, 7] = true ∧
+    hasPrefix [1, 2, 255] [1, 3] = false ∧ inPrefixRange [1, 2, 255] [1, 3] = false ∧
+    KV.deleteRange [([1, 2, 255, 0], 5), ([1, 3, 7], 6)] [1, 2, 255] (some [1, 3, 255]) = [] ∧
+    KV.deleteRange [([1, 2, 255, 0], 5), ([1, 3, 7], 6)] [1, 2, 255] (upperBound [1, 2, 255]) = [([1, 3, 7], 6)] := by
+  decide
+
+/-- PURGING ONE CONTRACT'S STORAGE NODES TOUCHES NO OTHER CONTRACT (core/state `flush` →
+trieutils `DeleteStorageNodesByPath`: `DeleteRange(p, UpperBound(p))`, `p` = bucket byte ++ the 32 bytes
+of the address; node keys are `p` ++ node type ++ path): on the encoded nodes of all storage tries the
+range delete for address `a` removes exactly the nodes of `a` — every address a felt, whatever bytes
+it ends in. -/
+theorem contract_purge_touches_only_owner (bk : BucketIds) (t : Bucket Addr (List (Key × Val))) (a : Addr)
+    (ha : a < 2 ^ 256) (h : TriesWF bk t) :
+    (encodeTries bk t).deleteRange (ownerPrefix bk a) (upperBound (ownerPrefix bk a)) =
+      encodeTries bk (t.filter (fun p => !decide (p.1 = a))) :=
+  purge_owner_exact bk t a ha h
+
+/-- … and this is what the model of `Revert` does to the leaf nodes the head reader fetches
+(`deleteContracts`: `leaves[a] := []` per deployed contract): on the encoded leaves it equals one
+`DeleteStorageNodesByPath` per contract the reverted block deployed. -/
+theorem revert_purge_is_range_deletes (bk : BucketIds) (hb : bk.trieStorage < 256)
+    (x : Bucket Addr Contract × Bucket Addr Leaves × Bucket Addr Leaves) (l : List (Addr × CHash))
+    (h : OwnersOK x.2.2) (hl : ∀ p ∈ l, p.1 < 2 ^ 256) :
+    encodeLeaves bk (deleteContracts x l).2.2 = purgeOwners bk (encodeLeaves bk x.2.2) (l.map (·.1)) :=
+  deleteContracts_is_range_deletes bk hb x l h hl
+
+/-- THE PER-PREFIX LISTS OF THE MODEL ARE WHAT A BOUNDED ITERATOR SEES, in every reachable state of the
+new backend. After any history whose diffs mention felts only (block numbers below 2^64), with the three
+history buckets under three different bucket bytes: the iterator over the key prefix of a contract
+[and slot] yields exactly the entries of `lget hist key`, in that order, under the keys
+`prefix ++ be64 block`; `valueAt` and `lastUpdatedBlockNumber` executed on those bytes (seek key
+`prefix ++ be64 n`, the 8 bytes after the prefix compared with `n`, `Prev`) return what `newValueAt` /
+`lastUpdatedOf` return on the list — the functions all read theorems above are about. The ordered-store
+assumption of earlier rounds is reduced to: an iterator yields the keys of `[p, UpperBound p)`, sorted. -/
+theorem history_readers_on_bytes (cfg : Cfg) (ops : List Op) (nd : Node NState)
+    (hrun : run (newBackend cfg) (Node.init (newBackend cfg)) ops = some nd)
+    (hok : OpsOK (fun ch d => d.Felts ∧ ch.length < 2 ^ 64) ops [])
+    (bk : BucketIds) (hb : bk.HistOK) (key : HKey) (hk : key.Felts) (n : Nat) (hn : n < 2 ^ 64) :
+    (encodeHist bk nd.st.hist).iter (hkeyBytes bk key) = encEntries bk key (lget nd.st.hist key) ∧
+    valueAtBytes (encodeHist bk nd.st.hist) (hkeyBytes bk key) n = newValueAt (lget nd.st.hist key) n ∧
+    lastUpdatedBytes (encodeHist bk nd.st.hist) (hkeyBytes bk key) n = lastUpdatedOf (lget nd.st.hist key) n := by
+  have hI := run_invariant' (newBackend cfg) KeysInv (fun ch d => d.Felts ∧ ch.length < 2 ^ 64)
+    (fun ch s s' d hI hP hu => keysInv_store cfg ch s s' d hI hP hu)
+    (fun d rest s s' hI hr => keysInv_revert cfg d rest s s' hI hr)
+    ops (Node.init (newBackend cfg)) nd keysInv_init hok hrun
+  exact ⟨iter_encodeHist bk hb key hk _ hI.1, valueAtBytes_eq bk hb key hk _ hI.1 n hn,
+    lastUpdatedBytes_eq bk hb key hk _ hI.1 n hn⟩
+
+/-- … and in every such state the purge of a contract (a felt address) is the range delete on the
+encoded leaf nodes, and leaves the leaf nodes of every other contract — what head storage reads
+return — as they are. -/
+theorem storage_purge_on_bytes (cfg : Cfg) (ops : List Op) (nd : Node NState)
+    (hrun : run (newBackend cfg) (Node.init (newBackend cfg)) ops = some nd)
+    (hok : OpsOK (fun ch d => d.Felts ∧ ch.length < 2 ^ 64) ops [])
+    (bk : BucketIds) (hb : bk.trieStorage < 256) (a : Addr) (ha : a < 2 ^ 256) :
+    (encodeLeaves bk nd.st.leaves).deleteRange (ownerPrefix bk a) (upperBound (ownerPrefix bk a)) =
+      encodeLeaves bk (lset nd.st.leaves a []) ∧
+    ∀ a' k, a' ≠ a → tget (lget (lset nd.st.leaves a []) a') k = tget (lget nd.st.leaves a') k := by
+  have hI := run_invariant' (newBackend cfg) KeysInv (fun ch d => d.Felts ∧ ch.length < 2 ^ 64)
+    (fun ch s s' d hI hP hu => keysInv_store cfg ch s s' d hI hP hu)
+    (fun d rest s s' hI hr => keysInv_revert cfg d rest s s' hI hr)
+    ops (Node.init (newBackend cfg)) nd keysInv_init hok hrun
+  refine ⟨leaves_purge_is_range_delete bk _ a ha hb hI.2.2.2, ?_⟩
+  intro a' k hne
+  rw [lget_lset]
+  simp [hne]
+
+/-! ### round 5: the RPC handlers (where the property is observed) -/
+
+/-- THE RPC METHODS, both backends (rpc v9 — also v8 — and v10 `starknet_getStorageAt`, `getNonce`,
+`getClassHashAt`; handlers over a node built by `blockchain.New`): after any history, for every
+contract address that is not a system contract and every slot:
+* block id = number `n` of a retained block: the value the state diffs up to and including block `n`
+  give, CONTRACT_NOT_FOUND when the contract does not exist at block `n`;
+* block id = latest: the same for the head — here the handlers' class-hash probe (v9: always first;
+  v10: for a zero value on latest) supplies the not-found that the head reader's `ContractStorage`
+  does not (`new_head_read_correct`): on the RPC level the property's "contracts that did not yet
+  exist are reported as not found" holds at the head as well, the named weakening of
+  checks/c03.json concerns the `core.StateReader` interface only;
+* a number above the head: BLOCK_NOT_FOUND.
+v9 and v10 answer alike. (System contracts: `getNonce` / `getClassHashAt` answer CONTRACT_NOT_FOUND by
+construction; `getStorageAt` follows the existence theorems above.) -/
+theorem rpc_reads_correct (cfg : Cfg) (hfix : cfg.leafFix = true) (ops : List Op) (hwf : OpsWF ops) (hfr : OpsFresh ops [])
+    (a : Addr) (ha : isSystem a = false) (k : Slot) :
+    (∀ bn, brun (newBackend cfg) (BNode.init (newBackend cfg)) ops = some bn →
+      (∀ n, n < (chainOf ops).length →
+        bn.rpcStorageV9 (newBackend cfg) none (.num n) a k = rpcSpec (absAt (chainOf ops) n) (.storage a k) ∧
+        bn.rpcStorageV10 (newBackend cfg) none (.num n) a k = rpcSpec (absAt (chainOf ops) n) (.storage a k) ∧
+        bn.rpcNonce (newBackend cfg) none (.num n) a = rpcSpec (absAt (chainOf ops) n) (.nonce a) ∧
+        bn.rpcClassHashAt (newBackend cfg) none (.num n) a = rpcSpec (absAt (chainOf ops) n) (.classHash a)) ∧
+      (chainOf ops ≠ [] →
+        bn.rpcStorageV9 (newBackend cfg) none .head a k = rpcSpec (absOf (chainOf ops)) (.storage a k) ∧
+        bn.rpcStorageV10 (newBackend cfg) none .head a k = rpcSpec (absOf (chainOf ops)) (.storage a k) ∧
+        bn.rpcNonce (newBackend cfg) none .head a = rpcSpec (absOf (chainOf ops)) (.nonce a) ∧
+        bn.rpcClassHashAt (newBackend cfg) none .head a = rpcSpec (absOf (chainOf ops)) (.classHash a)) ∧
+      (∀ n, (chainOf ops).length ≤ n →
+        bn.rpcStorageV9 (newBackend cfg) none (.num n) a k = .blockNotFound ∧
+        bn.rpcStorageV10 (newBackend cfg) none (.num n) a k = .blockNotFound ∧
+        bn.rpcNonce (newBackend cfg) none (.num n) a = .blockNotFound ∧
+        bn.rpcClassHashAt (newBackend cfg) none (.num n) a = .blockNotFound)) ∧
+    (∀ bn, brun legacyBackend (BNode.init legacyBackend) ops = some bn →
+      (∀ n, n < (chainOf ops).length →
+        bn.rpcStorageV9 legacyBackend none (.num n) a k = rpcSpec (absAt (chainOf ops) n) (.storage a k) ∧
+        bn.rpcStorageV10 legacyBackend none (.num n) a k = rpcSpec (absAt (chainOf ops) n) (.storage a k) ∧
+        bn.rpcNonce legacyBackend none (.num n) a = rpcSpec (absAt (chainOf ops) n) (.nonce a) ∧
+        bn.rpcClassHashAt legacyBackend none (.num n) a = rpcSpec (absAt (chainOf ops) n) (.classHash a)) ∧
+      (chainOf ops ≠ [] →
+        bn.rpcStorageV9 legacyBackend none .head a k = rpcSpec (absOf (chainOf ops)) (.storage a k) ∧
+        bn.rpcStorageV10 legacyBackend none .head a k = rpcSpec (absOf (chainOf ops)) (.storage a k) ∧
+        bn.rpcNonce legacyBackend none .head a = rpcSpec (absOf (chainOf ops)) (.nonce a) ∧
+        bn.rpcClassHashAt legacyBackend none .head a = rpcSpec (absOf (chainOf ops)) (.classHash a)) ∧
+      (∀ n, (chainOf ops).length ≤ n →
+        bn.rpcStorageV9 legacyBackend none (.num n) a k = .blockNotFound ∧
+        bn.rpcStorageV10 legacyBackend none (.num n) a k = .blockNotFound ∧
+        bn.rpcNonce legacyBackend none (.num n) a = .blockNotFound ∧
+        bn.rpcClassHashAt legacyBackend none (.num n) a = .blockNotFound)) := by
+  constructor
+  · intro bn hb
+    obtain ⟨nd, hr, hR⟩ := brun_refines_init _ ops bn hb
+    have hinv := run_invariant (newBackend cfg) (NInv cfg)
+      (fun ch s s' d hI hd hu => ninv_store cfg ch s s' d hI hd hu)
+      (fun d rest s s' hI hr => ninv_revert cfg d rest s s' hI hr)
+      ops (Node.init (newBackend cfg)) nd (ninv_init cfg) hwf hr
+    apply rpc_from_reads (newBackend cfg) ops bn nd hR (node_chain_chainOf _ ops nd hr) a ha k
+    · intro n hn q hq; exact new_read_correct cfg ops nd hr hwf hfr n hn q hq
+    · intro hne
+      have hh := new_head_read_correct cfg ops nd hr hwf hne
+      exact ⟨(hh.1 a ha).1, (hh.1 a ha).2, hh.2.2 hfix a k⟩
+    · exact hinv.undep.head
+  · intro bn hb
+    obtain ⟨nd, hr, hR⟩ := brun_refines_init _ ops bn hb
+    have hinv := run_invariant legacyBackend LInv
+      (fun ch s s' d hI hd hu => linv_store ch s s' d hI hd hu)
+      (fun d rest s s' hI hr => linv_revert true d rest s s' hI hr)
+      ops (Node.init legacyBackend) nd linv_init hwf hr
+    apply rpc_from_reads legacyBackend ops bn nd hR (node_chain_chainOf _ ops nd hr) a ha k
+    · intro n hn q hq; exact legacy_read_correct ops nd hr hwf hfr n hn q hq
+    · intro hne
+      have hh := legacy_head_read_correct ops nd hr hwf hne
+      exact ⟨(hh.1 a ha).1, (hh.1 a ha).2, hh.2.2 a k⟩
+    · exact hinv.undep.head
+
 /-! ### non-vacuity: the hypotheses are satisfiable by histories that exercise the encodings -/
 
 /-- deploy + write, overwrite + nonce, replace class, revert, write again: runs, is well-formed,
@@ -1035,5 +1211,67 @@ example : (run legacyBackend (Node.init legacyBackend) sysRevertHistory).map
                 nd.read legacyBackend (.num 4) (.storage 1 2), nd.read legacyBackend (.num 4) (.storage 1 4),
                 nd.read legacyBackend (.num 4) (.nonce 2), nd.read legacyBackend (.num 2) (.storage 2 3)]) =
     some [some .notfound, some .notfound, some (.ok 0), some (.ok 2), some .notfound, some .notfound] := by decide
+
+/-! ### non-vacuity of the round-5 statements -/
+
+example : upperBound [1, 2, 255] = some [1, 3] ∧ upperBound [1, 255, 255] = some [2] ∧ upperBound [1] = some [2] ∧
+    upperBound [255, 255] = none ∧ upperBound [] = none ∧ upperBoundLoop [1, 2, 255] = some [1, 3] ∧
+    upperBoundLoop [7, 255, 255, 255] = some [8] ∧ upperBoundLoop [255] = none := by decide
+
+example : Bytes [1, 2, 255, 0] ∧ inPrefixRange [1, 2, 255] [1, 2, 255, 0] = true ∧ inPrefixRange [255, 255] [255, 255, 9] = true ∧
+    inPrefixRange [255, 255] [255, 254, 255] = false := by
+  refine ⟨by intro b hb; simp only [List.mem_cons, List.not_mem_nil, or_false] at hb; omega, by decide, by decide, by decide⟩
+
+/-- block 0 deploys 0x200 (the address right above 0x1ff) and writes its slots 0xff and 0x100; block 1
+deploys 0x1ff right below it and writes the same slots; block 1 is reverted (purge of 0x1ff); block 1'
+writes 0x200[0x100] -/
+def byteBoundaryHistory : List Op :=
+  [.store 1 { Diff.empty with deployed := [(0x200, 0xc000)], storage := [(0x200, [(0xff, 7), (0x100, 8)])] },
+   .store 2 { Diff.empty with deployed := [(0x1ff, 0xc001)], storage := [(0x1ff, [(0xff, 5), (0x100, 6)])] },
+   .revert,
+   .store 3 { Diff.empty with storage := [(0x200, [(0x100, 9)])], nonces := [(0x200, 1)] }]
+
+/-- the hypotheses of `history_readers_on_bytes` / `storage_purge_on_bytes` hold for it -/
+example : OpsOK (fun ch d => d.Felts ∧ ch.length < 2 ^ 64) byteBoundaryHistory [] := by
+  simp only [byteBoundaryHistory, OpsOK, List.tail_cons, and_true]
+  refine ⟨⟨⟨by decide, by decide, by decide, by decide⟩, by decide⟩, ⟨⟨by decide, by decide, by decide, by decide⟩, by decide⟩,
+    ⟨⟨by decide, by decide, by decide, by decide⟩, by decide⟩⟩
+
+/-- it runs; after it the neighbour 0x200 still reads 7 / 9 at the head and 8 at block 0, and 0x1ff is gone -/
+example : (run (newBackend Cfg.current) (Node.init (newBackend Cfg.current)) byteBoundaryHistory).map
+    (fun nd => [nd.read (newBackend Cfg.current) .head (.storage 0x200 0xff),
+                nd.read (newBackend Cfg.current) .head (.storage 0x200 0x100),
+                nd.read (newBackend Cfg.current) (.num 0) (.storage 0x200 0x100),
+                nd.read (newBackend Cfg.current) (.num 1) (.storage 0x200 0xff),
+                nd.read (newBackend Cfg.current) (.num 1) (.classHash 0x1ff)]) =
+    some [some (.ok 7), some (.ok 9), some (.ok 8), some (.ok 7), some .notfound] := by decide
+
+/-- the readers on bytes, on a small encoded bucket (bucket bytes 10 / 11 / 12; the entries of the
+nonce of address 0x1ff at blocks 1 and 3, of 0x200 at block 2): at block 2 the nonce of 0x1ff is the
+entry of block 1 — the iterator of prefix `11 ++ 0x…01ff` does not reach the entry of 0x200 at exactly
+block 2 -/
+example :
+    let bk : BucketIds := ⟨10, 11, 12, 13⟩
+    let h : Bucket HKey Hist := [(.nonce 0x1ff, [(1, 4), (3, 6)]), (.nonce 0x200, [(2, 5)])]
+    valueAtBytes (encodeHist bk h) (hkeyBytes bk (.nonce 0x1ff)) 2 = some 4 ∧
+    valueAtBytes (encodeHist bk h) (hkeyBytes bk (.nonce 0x1ff)) 0 = none ∧
+    lastUpdatedBytes (encodeHist bk h) (hkeyBytes bk (.nonce 0x1ff)) 2 = 1 ∧
+    ((encodeHist bk h).iter (hkeyBytes bk (.nonce 0x1ff))).length = 2 := by
+  decide
+
+example : (⟨10, 11, 12, 13⟩ : BucketIds).HistOK := ⟨by decide, by decide, by decide, by decide, by decide, by decide⟩
+
+/-- the RPC methods on the example history (new backend): 0x104[2] = 5 at block 0, 0 at the head (the
+contract exists: value 0, not CONTRACT_NOT_FOUND); 0x105 does not exist: CONTRACT_NOT_FOUND on latest from
+both versions although the head reader answers 0; block 7: BLOCK_NOT_FOUND -/
+example : (brun (newBackend Cfg.current) (BNode.init (newBackend Cfg.current)) exampleHistory).map
+    (fun bn =>
+      [bn.rpcStorageV9 (newBackend Cfg.current) none (.num 0) 0x104 2, bn.rpcStorageV10 (newBackend Cfg.current) none .head 0x104 2,
+       bn.rpcStorageV9 (newBackend Cfg.current) none .head 0x105 2, bn.rpcStorageV10 (newBackend Cfg.current) none .head 0x105 2,
+       bn.rpcStorageV10 (newBackend Cfg.current) none (.num 7) 0x104 2, bn.rpcNonce (newBackend Cfg.current) none (.num 1) 0x104,
+       bn.rpcClassHashAt (newBackend Cfg.current) none .head 1]) =
+    some [.ok 5, .ok 0, .contractNotFound, .contractNotFound, .blockNotFound, .ok 1, .contractNotFound] ∧
+    (brun (newBackend Cfg.current) (BNode.init (newBackend Cfg.current)) exampleHistory).map
+      (fun bn => bn.read (newBackend Cfg.current) none .head (.storage 0x105 2)) = some (some (.ok 0)) := by decide
 
 end Juno.C03.Props
